@@ -3,6 +3,7 @@
 use crate::monitor::{digest, observe, par_range, Cfg, Ctx, Report};
 use crate::oracle::graphs::{self, Edge};
 use crate::rng::Rng;
+use crate::shapes;
 use rust_dsymbols::util::cutsets::{min_edge_cut, min_edge_cut_undirected, min_vertex_cut, min_vertex_cut_undirected};
 use serde_json::{json, Value};
 use std::collections::BTreeSet;
@@ -72,7 +73,11 @@ pub fn judge(ctx: &mut Ctx, kind: Kind, edges: &[Edge], source: usize, sink: usi
         return false;
     }
     ctx.eval();
-    let e = edges.to_vec();
+    // the edge list is handed over in one of several iterator forms (a function of the query, so that a replay
+    // makes the same call): the answer must not depend on it
+    let shape = (digest(&(edges, source, sink)) % shapes::INPUT_SHAPES as u64) as usize;
+    ctx.count(&format!("input_shape.{}", shapes::input_shape_name(shape)));
+    let e = shapes::shaped(edges, shape);
     if !kind.vertex() {
         let r = observe(|| match kind {
             Kind::EdgeDirected => min_edge_cut(e, source, sink),
@@ -163,6 +168,17 @@ const KINDS: [Kind; 4] = [Kind::EdgeDirected, Kind::EdgeUndirected, Kind::Vertex
 
 pub fn run(cfg: &Cfg) -> Report {
     let mut report = Report::new(cfg);
+    // abandoned / out-of-domain calls between judged cases: an edge iterator that gives up half way, a query
+    // whose terminals coincide or do not occur in the graph
+    crate::monitor::set_poison(|k| {
+        let edges: Vec<Edge> = vec![(0, 1), (1, 2), (0, 3), (3, 2), (1, 3), (2, 4)];
+        match k % 4 {
+            0 => { let _ = min_edge_cut(shapes::panicking(&edges, 1 + (k as usize / 4) % 5), 0, 4); }
+            1 => { let _ = min_vertex_cut_undirected(shapes::panicking(&edges, 2 + (k as usize / 4) % 4), 0, 4); }
+            2 => { let _ = min_edge_cut_undirected(edges.clone(), 2, 2); }
+            _ => { let _ = min_vertex_cut(edges.clone(), 0, 9); }
+        }
+    });
     let seed = cfg.seed;
 
     // (A) all simple digraphs on nv labelled vertices x all ordered terminal pairs
